@@ -84,9 +84,10 @@ class Scripted:
         self.o_rand, self.o_randperm = torch.rand, torch.randperm
 
         def fake_rand(*size, **kw):
-            if self.rands and (size == (1,) or size == ((1,),)) and not kw.get("generator"):
-                self.used_rand += 1
-                return torch.tensor([self.rands.pop(0)], dtype=torch.float64)
+            shape = tuple(size[0]) if len(size) == 1 and isinstance(size[0], (tuple, list)) else tuple(size)
+            if self.rands and all(isinstance(d, int) for d in shape) and math.prod(shape) == 1 and not kw.get("generator"):
+                self.used_rand += 1           # a single uniform draw: the coin of mutate()
+                return torch.full(shape, self.rands.pop(0), dtype=torch.float64)
             return self.o_rand(*size, **kw)
 
         def fake_randperm(n, *a, **kw):
@@ -187,6 +188,10 @@ class C06(vlib.Driver):
                    "rounded product, compared bit-exactly on the binary64 instance",
                    "architecture / parameter mutations do not touch hyperparameter attributes (outside this property)"]
     shard = 60
+
+    def setup(self, tier):
+        import torch
+        torch.set_num_threads(1)       # tiny networks; avoids thread contention on a shared machine
 
     # ---------- generation
     def generate(self, tier, rng):
@@ -289,16 +294,19 @@ class C06(vlib.Driver):
                 ops = []
                 for t in range(nops):
                     r = rng.random()
-                    if r < 0.7 or size == 1:
+                    if r < 0.7 or (size == 1 and r >= 0.9):
                         ops.append(["round", [[self.pick_index(names, algo, rng), self.pick_u(rng)] for _ in range(size)]])
-                    elif r < 0.85:
+                    elif r < 0.8:
                         ops.append(["one", rng.randrange(size), self.pick_index(names, algo, rng), self.pick_u(rng)])
+                    elif r < 0.9:
+                        ops.append(["other", rng.randrange(size), rng.choice(["arch", "param", "act"]), rng.randrange(1000)])
                     else:
                         s = rng.randrange(size)
                         d = rng.choice([i for i in range(size) if i != s])
                         ops.append(["clone", s, d])
                 cases.append({"kind": "pop", "algo": algo, "size": size, "hp": hp, "order": names, "ops": ops,
-                              "init": self.random_init(algo, hp, rng) if j else {}})
+                              "init": self.random_init(algo, hp, rng) if j else {},
+                              "build": "classmethod" if j % 4 == 1 else "create_population"})
             # every lr name mutated by every individual in the same round, twice (shared configuration / twin optimizers)
             names = lr_names(algo) + ["batch_size"]
             for li, ln in enumerate(lr_names(algo)):
@@ -405,6 +413,21 @@ class C06(vlib.Driver):
             o, a = [obs, obs], [cact, cact]
         # ONE configuration object for the whole population, as a user would write it
         hp = HyperparameterConfig(**{n: self.make_param(case["hp"][n]) for n in case["order"]}) if case["order"] else None
+        if case.get("build") == "classmethod":
+            import importlib
+            modname, clsname = {"DQN": ("dqn", "DQN"), "Rainbow DQN": ("dqn_rainbow", "RainbowDQN"), "CQN": ("cqn", "CQN"),
+                                "DDPG": ("ddpg", "DDPG"), "TD3": ("td3", "TD3"), "PPO": ("ppo", "PPO"),
+                                "NeuralUCB": ("neural_ucb_bandit", "NeuralUCB"), "NeuralTS": ("neural_ts_bandit", "NeuralTS"),
+                                "MADDPG": ("maddpg", "MADDPG"), "MATD3": ("matd3", "MATD3"), "IPPO": ("ippo", "IPPO")}[algo]
+            cls = getattr(importlib.import_module("agilerl.algorithms." + modname), clsname)
+            kw = dict(hp_config=hp, net_config=net, batch_size=INIT["BATCH_SIZE"], learn_step=INIT["LEARN_STEP"])
+            if algo in LR2:
+                kw.update(lr_actor=INIT.get("LR_ACTOR", 1e-4), lr_critic=INIT.get("LR_CRITIC", 1e-3))
+            else:
+                kw["lr"] = INIT["LR"]
+            if algo in ("MADDPG", "MATD3", "IPPO"):
+                kw["agent_ids"] = INIT["AGENT_IDS"]
+            return cls.population(case["size"], o, a, **kw)
         return create_population(algo, o, a, net, INIT, hp_config=hp, population_size=case["size"])
 
     @staticmethod
@@ -443,6 +466,10 @@ class C06(vlib.Driver):
                 with Scripted(perms=[op[2]], rands=[op[3]], nconfig=ncfg) as s:
                     pop[op[1]] = muts.mutation([pop[op[1]]])[0]
                 s.assert_consumed()
+            elif op[0] == "other":
+                kw = dict(no_mutation=0, architecture=0, new_layer_prob=0.5, parameters=0, activation=0, rl_hp=0, rand_seed=op[3])
+                kw[{"arch": "architecture", "param": "parameters", "act": "activation"}[op[2]]] = 1
+                pop[op[1]] = Mutations(**kw).mutation([pop[op[1]]])[0]
             else:
                 pop[op[2]] = pop[op[1]].clone(index=op[2])
             trace.append([self.observe(a, names) for a in pop])
@@ -490,12 +517,26 @@ class C06(vlib.Driver):
                 ops.append("Round [" + "; ".join(f"({k}, {cf(u)})" for k, u in op[1]) + "]")
             elif op[0] == "one":
                 ops.append(f"MutOne {op[1]} {op[2]} {cf(op[3])}")
+            elif op[0] == "other":
+                ops.append(f"OtherMut {op[1]}")
             else:
                 ops.append(f"Clone {op[1]} {op[2]}")
         pop0 = "[" + "; ".join(agent0(o) for o in obs["obs0"]) + "]"
         # the label before the first mutation is whatever the constructor left; it is not compared
         ob0 = "[" + "; ".join(agent_obs(dict(o, mut=None)) for o in obs["obs0"]) + "]"
-        tr = "[" + "; ".join("[" + "; ".join(agent_obs(o) for o in step) + "]" for step in obs["trace"]) + "]"
+        steps = []
+        unknown = set()   # individuals whose label was left by an architecture / parameter / activation mutation (not modelled)
+        for op, step in zip(case["ops"], obs["trace"]):
+            if op[0] == "other":
+                unknown.add(op[1])
+            elif op[0] == "round":
+                unknown -= set(range(len(op[1]))) if case["order"] else set(range(len(step)))
+            elif op[0] == "one":
+                unknown.discard(op[1])
+            elif op[0] == "clone":
+                (unknown.add if op[1] in unknown else unknown.discard)(op[2])
+            steps.append("[" + "; ".join(agent_obs(dict(o, mut=None) if i in unknown else o) for i, o in enumerate(step)) + "]")
+        tr = "[" + "; ".join(steps) + "]"
         return f"check_pop {pop0} [{'; '.join(ops)}] {ob0} {tr}"
 
     @staticmethod
@@ -586,7 +627,7 @@ class C06(vlib.Driver):
                 touched = {i: d for i, d in enumerate(op[1])}
             elif op[0] == "one":
                 touched = {op[1]: [op[2], op[3]]}
-            else:
+            elif op[0] == "clone":
                 src = {op[2]: op[1]}
             for i, (b, a) in enumerate(zip(prev, after)):
                 ref = prev[src[i]] if i in src else b
@@ -621,7 +662,9 @@ class C06(vlib.Driver):
                                                   f"{where}: individual {i}: mutated {n!r} but {xa['name']} lr changed {xb['groups']} -> {xa['groups']}"), t)
                 else:
                     if a["vals"] != ref["vals"] or [(x["wlr"], x["groups"]) for x in a["opts"]] != [(x["wlr"], x["groups"]) for x in ref["opts"]]:
-                        what = "clone differs from its source" if i in src else "individual that was not mutated changed"
+                        what = ("clone differs from its source" if i in src else
+                                f"{op[2]} mutation moved hyperparameters / learning rates" if (op[0] == "other" and i == op[1]) else
+                                "individual that was not mutated changed")
                         return done(Violation("other-agents", f"pop:other-agent-changed:{algo}", f"{where}: individual {i}: {what}: {ref['vals']} -> {a['vals']}"), t)
                 v = coherent(i, a, where)
                 if v:
@@ -681,7 +724,7 @@ class C06(vlib.Driver):
     def classify(self, case, obs):
         labs = [f"kind={case['kind']}"]
         if case["kind"] == "pop":
-            labs += [f"algo={case['algo']}", f"pop-size={case['size']}", f"n-ops={len(case['ops'])}"]
+            labs += [f"algo={case['algo']}", f"pop-size={case['size']}", f"n-ops={len(case['ops'])}", f"built-by={case.get('build', 'create_population')}"]
             labs += [f"op={op[0]}" for op in case["ops"]]
             if not case["order"]:
                 labs.append("no-hp-config")
